@@ -1060,3 +1060,69 @@ def rf160(run):
     run.ob(rule, ('header',), n == 0, {'functions': len(funcs), 'hash-derived variables': sorted('%s.%s' % (k, v_) for k, v in tainted.items() for v_ in v)[:20],
                                        'conversions of hash-derived values inspected': src, 'narrowing': n})
     return 1
+
+
+# ---------------------------------------------------------------------------------------------
+# RF173: the decoder can follow every reference the encoder can write
+# ---------------------------------------------------------------------------------------------
+
+def rf173(run):
+    import re
+    rule = 'RF173'
+    run.rule(rule, 'mir-reduce.h: the encoder refers to an earlier symbol of the current buffer by its distance in symbols; its dictionary '
+                   'recycles only the tail of one hash chain, so an element of another chain lives as long as the buffer and the distance can '
+                   'be anything up to the number of symbols written so far.  The decoder therefore (a) keeps a position for every symbol of a '
+                   'buffer — its table has at least as many entries as the buffer has bytes — and indexes it without wrapping, and (b) '
+                   'rejects a reference number only when it is 0 or larger than the number of symbols decoded so far (frozen pair of tests); '
+                   'any further restriction reports genuine encoder output as damaged')
+    tu = run.tu('mir')
+    recs = tu.records
+
+    def arr_len(rec, fld):
+        for f_ in recs.get(rec, {}).get('fields', []):
+            if f_['n'] == fld:
+                m = re.search(r'\[(\d+)\]', tu.type(f_['t']).s)
+                return int(m.group(1)) if m else None
+        return None
+    nbuf = arr_len('reduce_data', 'buf')
+    ntab = arr_len('_reduce_decode_data', 'ind2pos')
+    if nbuf is None or ntab is None:
+        raise F.AnalysisBroken('mir-reduce.h: the buffer / position table arrays were not found')
+    ok = ntab >= nbuf
+    run.ob(rule, ('table size',), ok, {'bytes per buffer': nbuf, 'entries of ind2pos': ntab})
+    g = tu.func('reduce_decode_get')
+    run.functions_analysed.add(('mir', g.name))
+    if not ok:
+        run.violation(rule, g, 'position table smaller than a buffer', 'the decoder remembers the positions of %d symbols but a buffer can hold %d '
+                      '(one-byte symbols of incompressible data): a genuine back reference to a symbol further back is rejected or resolved '
+                      'to the position of another symbol' % (ntab, nbuf), line=g.line)
+    # (b) the rejection test
+    tests = [x for x in g.walk() if x['k'] == 'IfStmt' and re.search(r'\bref_ind\b', F.src(x['c'][0])) and
+             any(y['k'] == 'BreakStmt' for y in F.walk(x['c'][1]))]
+    if len(tests) != 1:
+        raise F.AnalysisBroken('reduce_decode_get: %d tests of the reference number found, expected one' % len(tests))
+
+    def disj(e):
+        e = F.strip(e)
+        if e['k'] == 'BinaryOperator' and e['op'] == '||':
+            return disj(e['c'][0]) + disj(e['c'][1])
+        return [F.src(e).replace(' ', '').strip('()')]
+    parts = set(disj(tests[0]['c'][0]))
+    allowed = {'ref_ind==0', 'curr_ind<ref_ind', 'ref_ind>curr_ind', '!ref_ind', '0==ref_ind'}
+    extra = sorted(parts - allowed)
+    have = ({'ref_ind==0', '!ref_ind', '0==ref_ind'} & parts) and ({'curr_ind<ref_ind', 'ref_ind>curr_ind'} & parts)
+    ok2 = not extra and bool(have)
+    run.ob(rule, ('rejection test',), ok2, {'site': '%s:%d' % (g.relfile(), tests[0]['l']), 'rejects when': sorted(parts)})
+    if not ok2:
+        run.violation(rule, g, 'reference number rejected', 'reduce_decode_get rejects a reference when `%s`: %s' %
+                      (' || '.join(sorted(parts)), ('the additional condition `%s` refuses distances the encoder does write (an old element of an '
+                       'untouched hash chain stays referable for the whole buffer)' % extra[0]) if extra else 'the tests for 0 / for a number '
+                       'beyond the symbols decoded so far are missing'), line=tests[0]['l'])
+    # (a) continued: the table is indexed by the symbol number itself
+    wraps = [x for x in g.walk() if x['k'] == 'ArraySubscriptExpr' and 'ind2pos' in F.src(x['c'][0]) and
+             any(y['k'] == 'BinaryOperator' and y['op'] in ('%', '&') for y in F.walk(x['c'][1]))]
+    run.ob(rule, ('indexing',), not wraps, {'subscripts of ind2pos that wrap': len(wraps)})
+    if wraps:
+        run.violation(rule, g, 'position table used as a ring', 'reduce_decode_get indexes the position table with `%s`: positions of symbols further '
+                      'back than the ring are overwritten while the encoder can still refer to them' % F.src(wraps[0]['c'][1])[:50], line=wraps[0]['l'])
+    return 3
